@@ -178,7 +178,8 @@ def run(env, rep):
             if took_nc:
                 n_ref += 1
                 text = rets[-1][1]
-                if "ServerSessionEvent::" in text or "create_error_packet" not in text:
+                err_cmd = any(t[0] == "call" and ((t[1].endswith("into_message_payload") and t[2] and "Amf0Command(to_string('_error')" in t[2][0]) or t[1].endswith("create_error_packet")) for t in p)
+                if "ServerSessionEvent::" in text or not err_cmd or "OutboundResponse(" not in text:
                     bad.append(text[:100])
         rep.check("C09.R4", "%s|refusal" % name, n_ref >= 1 and not bad, "while not connected the request is answered with an error packet and raises nothing (%d path(s))" % n_ref,
                   "%s while not connected returns %s" % (name, bad[:2] or "no refusing path found"), bodies[name].span if name in bodies else None)
@@ -215,9 +216,43 @@ def run(env, rep):
         rep.check("C09.R5", "%s|fresh-id" % name, n >= 1 and not bad, "ids come from the counter, which is incremented on the same path (%d path(s))" % n,
                   "%s: %s" % (name, "; ".join(sorted(set(bad))) or "no inserting path"), bodies[name].span if name in bodies else None)
     # nothing else writes the counters
-    for counter, allowed in (("next_request_number", {"handle_command_connect", "handle_command_publish", "handle_command_play"}), ("next_stream_id", {"handle_command_create_stream"})):
-        writers = {n for n, paths in traces.items() for p in paths for t in p if t[0] == "store" and t[1] == counter}
-        rep.check("C09.R5", "%s|writers" % counter, writers == allowed, "%s is written only by %s" % (counter, sorted(allowed)), "%s is written by %s" % (counter, sorted(writers)))
+    # every store to a counter, anywhere in the crate, stores its old value + 1 (ids stay fresh whoever increments)
+    adt_key = [k for k, a in prog.adts.items() if a["pretty"] == TY]
+    from ..loader import Place
+    from ..interp import stable
+    from .. import interp as I
+    for counter in ("next_request_number", "next_stream_id"):
+        stores, bad_st = 0, []
+        for b in prog.bodies.values():
+            if b.kind == "promoted" or is_derived(b):
+                continue
+            it = None
+            for bi, blk in enumerate(b.blocks):
+                if blk["cleanup"]:
+                    continue
+                for si, st in enumerate(blk["stmts"]):
+                    pp = st["place"]["p"]
+                    if not (pp and isinstance(pp[-1], dict) and pp[-1].get("n") == counter and adt_key and pp[-1].get("a") == adt_key[0]):
+                        continue
+                    it = it or ctx.interp(b.key)
+                    S = it.entry_states.get(bi)
+                    if S is None:
+                        continue
+                    S = S.copy()
+                    I.CUR_BODY[0] = b
+                    for j, s2 in enumerate(blk["stmts"][:si]):
+                        it.cur = (bi, j)
+                        it.transfer_stmt(S, s2)
+                    it.cur = (bi, si)
+                    loc = it.resolve(S, Place(st["place"]))
+                    old = S.read(loc)
+                    v = it.eval_rvalue(S, st["rv"], Place(st["place"]))
+                    base, off = S.norm(v)
+                    stores += 1
+                    if not (base == S.norm(old)[0] and off - S.norm(old)[1] == 1):
+                        bad_st.append("%s stores %s" % (b.pretty, stable(v)))
+        rep.check("C09.R5", "%s|stores" % counter, stores >= 1 and not bad_st, "every store to %s writes its previous value + 1 (%d store(s))" % (counter, stores),
+                  "%s: %s (ids handed out must never repeat: every store must be old value + 1)" % (counter, "; ".join(bad_st) or "no store found"))
     for name in ("accept_request", "reject_request"):
         paths = traces.get(name, [])
         okc, n = True, 0
